@@ -51,7 +51,7 @@ import copy
 
 from .astutil import walk_no_nested
 
-FORMS = ('raw', 'names', 'canon', 'vocab', 'vocab+proj', 'proj', 'once', 'all', 'helpers', 'vocab+proj+helpers', 'all+helpers', 'names+vocab+proj', 'names+all')
+FORMS = ('raw', 'names', 'canon', 'names+canon', 'names+vocab', 'vocab', 'vocab+proj', 'proj', 'once', 'all', 'helpers', 'vocab+proj+helpers', 'all+helpers', 'names+vocab+proj', 'names+all')
 
 MUTATORS = {'append', 'extend', 'insert', 'remove', 'pop', 'popleft', 'popitem', 'clear', 'sort', 'reverse', 'update', 'add', 'discard',
             'setdefault', 'setflags', 'fill', 'resize', 'put', 'itemset', 'appendleft', 'write', 'send', 'close', '__setitem__',
@@ -264,10 +264,8 @@ def _collapse_conditional_definitions(fn):
                 else:
                     ok = False
                 break
-            if not ok or name in special or counts.get(name, 0) != len(branches) + 1:
-                continue
-            if any(name in {n.id for n in ast.walk(t) if isinstance(n, ast.Name)} for t, _ in branches):
-                continue
+            if not ok or name in special:
+                continue    # (other bindings of the name do not matter: the chain as a whole is one conditional assignment)
             expr = final
             for test, val in reversed(branches):
                 expr = ast.IfExp(test=test, body=val, orelse=expr)
@@ -411,6 +409,31 @@ def _search_loops_to_quantifiers(fn):
             b[i - 1:i + 1] = [new]
 
 
+CONSUMERS = {'sorted', 'sum', 'any', 'all', 'tuple', 'list', 'set', 'frozenset', 'max', 'min', 'dict'}
+
+
+def _listcomp_arguments(fn):
+    '''`sorted([x for ..])` is `sorted(x for ..)`: a list comprehension that is the only argument of a call that just consumes it is read as a generator.'''
+    for n in _own_nodes(fn):
+        if isinstance(n, ast.Call) and len(n.args) == 1 and not n.keywords and isinstance(n.args[0], ast.ListComp) and _callee_last(n) in CONSUMERS \
+                and (isinstance(n.func, ast.Name) or ast.unparse(n.func).startswith(('builtins.', 'util.'))):
+            lc = n.args[0]
+            g = ast.GeneratorExp(elt=lc.elt, generators=lc.generators)
+            ast.copy_location(g, lc)
+            n.args[0] = g
+
+
+def _newaxis_is_none(fn):
+    '''numpy.newaxis is None.'''
+    class T(ast.NodeTransformer):
+        def visit_Attribute(self, n):
+            self.generic_visit(n)
+            if n.attr == 'newaxis' and isinstance(n.value, ast.Name) and n.value.id in ('numpy', 'np') and isinstance(n.ctx, ast.Load):
+                return ast.copy_location(ast.Constant(value=None), n)
+            return n
+    fn.body = [T().visit(st) for st in fn.body]
+
+
 def _counting_while_to_for(fn):
     '''`i = 0` directly followed by `while True: BODY; i += 1` (no continue in BODY, i not otherwise bound there) is `for i in itertools.count(): BODY`.'''
     for b in _blocks(fn):
@@ -442,6 +465,8 @@ def _inline_function(fn, flags):
     _loops_to_comprehensions(fn)
     _search_loops_to_quantifiers(fn)
     _counting_while_to_for(fn)
+    _listcomp_arguments(fn)
+    _newaxis_is_none(fn)
     _list_then_sort(fn)
     while _collapse_conditional_definitions(fn):
         pass
@@ -519,6 +544,7 @@ def _inline_function(fn, flags):
             if done:
                 break
         if not done:
+            _listcomp_arguments(fn)
             return
 
 
@@ -915,9 +941,10 @@ def local_order(fn):
     params_ = {x.arg for x in a.posonlyargs + a.args + a.kwonlyargs + ([a.vararg] if a.vararg else []) + ([a.kwarg] if a.kwarg else [])}
     nested = _nested_reads(fn)
     first = {}
+    incomp = {id(t) for c in _own_nodes(fn) if isinstance(c, ast.comprehension) for t in ast.walk(c.target)}   # comprehension variables live in their own scope
     for n in _own_nodes(fn):
         nm, pos = None, None
-        if isinstance(n, ast.Name) and isinstance(n.ctx, (ast.Store, ast.Del)):
+        if isinstance(n, ast.Name) and isinstance(n.ctx, (ast.Store, ast.Del)) and id(n) not in incomp:
             nm, pos = n.id, (n.lineno, n.col_offset)
         elif isinstance(n, ast.ExceptHandler) and n.name:
             nm, pos = n.name, (n.lineno, n.col_offset)
@@ -946,20 +973,116 @@ def reference_names():
     return _REFNAMES
 
 
+def _parent_map(fn):
+    par = {}
+    for n in _own_nodes(fn):
+        for c in ast.iter_child_nodes(n):
+            par[id(c)] = n
+    return par
+
+
+def local_signatures(fn):
+    '''[(name, signature)] of the renamable locals in binding order.  The signature says how the local is first bound - the kind of
+    binding and its right-hand side / iterable with every local of the function masked - so that locals can be recognised after a renaming
+    even when other locals were added or removed.'''
+    names = local_order(fn)
+    if not names:
+        return []
+    locs = set(names)
+    par = _parent_map(fn)
+    first = {}
+    incomp = {id(t) for c in _own_nodes(fn) if isinstance(c, ast.comprehension) for t in ast.walk(c.target)}
+    for n in _own_nodes(fn):
+        if isinstance(n, ast.Name) and isinstance(n.ctx, (ast.Store, ast.Del)) and n.id in locs and id(n) not in incomp:
+            pos = (n.lineno, n.col_offset)
+            if n.id not in first or pos < first[n.id][0]:
+                first[n.id] = (pos, n)
+        elif isinstance(n, ast.ExceptHandler) and n.name in locs:
+            pos = (n.lineno, n.col_offset)
+            if n.name not in first or pos < first[n.name][0]:
+                first[n.name] = (pos, n)
+
+    def masked(e):
+        e2 = copy.deepcopy(e)
+        for x in ast.walk(e2):
+            if isinstance(x, ast.Name) and x.id in locs:
+                x.id = '_L'
+        return ast.unparse(e2)
+
+    out = []
+    for nm in names:
+        node = first[nm][1]
+        if isinstance(node, ast.ExceptHandler):
+            out.append((nm, 'exc:' + (ast.unparse(node.type) if node.type is not None else '')))
+            continue
+        # climb to the binding construct, remembering the position inside tuple targets
+        path = []
+        cur = node
+        p = par.get(id(cur))
+        while isinstance(p, (ast.Tuple, ast.List, ast.Starred)):
+            if isinstance(p, (ast.Tuple, ast.List)):
+                path.append(str([i for i, x in enumerate(p.elts) if x is cur][0]))
+            cur = p
+            p = par.get(id(cur))
+        where = '[' + ','.join(reversed(path)) + ']' if path else ''
+        if isinstance(p, ast.Assign):
+            sig = 'asg' + where + ':' + masked(p.value)
+        elif isinstance(p, ast.AnnAssign):
+            sig = 'asg' + where + ':' + (masked(p.value) if p.value is not None else '')
+        elif isinstance(p, ast.AugAssign):
+            sig = 'aug' + where + ':' + masked(p.value)
+        elif isinstance(p, (ast.For, ast.AsyncFor)):
+            sig = 'for' + where + ':' + masked(p.iter)
+        elif isinstance(p, ast.comprehension):
+            sig = 'comp' + where + ':' + masked(p.iter)
+        elif isinstance(p, ast.withitem):
+            sig = 'with' + where + ':' + masked(p.context_expr)
+        elif isinstance(p, ast.NamedExpr):
+            sig = 'walrus:' + masked(p.value)
+        else:
+            sig = type(p).__name__ if p is not None else '?'
+        out.append((nm, sig))
+    return out
+
+
 def _restore_names(fn, ref):
-    '''Alpha-renaming towards the reference naming: the k-th local (binding order) gets the k-th reference name, when the function has as many
-    locals as the reference and no new name would capture a name the function reads from outside.  Any consistent renaming of locals
+    '''Alpha-renaming towards the reference naming.  `ref` is the list of [name, signature] the function had in the anchored tree.  Locals are
+    paired with reference locals position by position when the function has as many locals as the reference, otherwise by an order-preserving
+    alignment of their binding signatures (so that added or removed temporaries do not shift the pairing).  A pair is renamed only when the new
+    name would not capture a name the function reads from outside or another local that keeps its name.  Any consistent renaming of locals
     preserves behaviour, so the table only chooses WHICH renaming is tried.'''
-    cur = local_order(fn)
-    if len(cur) != len(ref) or cur == ref:
+    ref = [tuple(r) if isinstance(r, (list, tuple)) else (r, None) for r in ref]
+    cur = local_signatures(fn)
+    if not cur or not ref or [c[0] for c in cur] == [r[0] for r in ref]:
         return False
-    mapping = {c: r for c, r in zip(cur, ref) if c != r}
-    if len(set(ref)) != len(ref):
+    pairs = []
+    if any(r[1] is None for r in ref):     # a table without signatures: position by position
+        if len(cur) != len(ref):
+            return False
+        pairs = list(zip([c[0] for c in cur], [r[0] for r in ref]))
+    else:
+        # order-preserving alignment of the binding signatures; between two aligned locals, gaps of equal length are paired position by position
+        import difflib
+        sm = difflib.SequenceMatcher(a=[c[1] for c in cur], b=[r[1] for r in ref], autojunk=False)
+        pa = pb = 0
+        for blk in sm.get_matching_blocks():
+            if blk.a - pa == blk.b - pb:
+                for k in range(blk.a - pa):
+                    pairs.append((cur[pa + k][0], ref[pb + k][0]))
+            for k in range(blk.size):
+                pairs.append((cur[blk.a + k][0], ref[blk.b + k][0]))
+            pa, pb = blk.a + blk.size, blk.b + blk.size
+    mapping = {c: r for c, r in pairs if c != r}
+    if not mapping:
         return False
     a = fn.args
-    outside = {n.id for n in _own_nodes(fn) if isinstance(n, ast.Name)} - set(cur)
+    curnames = {c[0] for c in cur}
+    outside = {n.id for n in _own_nodes(fn) if isinstance(n, ast.Name)} - curnames
     outside |= {x.arg for x in a.posonlyargs + a.args + a.kwonlyargs + ([a.vararg] if a.vararg else []) + ([a.kwarg] if a.kwarg else [])}
-    if any(r in outside for r in mapping.values()):
+    keep = curnames - set(mapping)                      # locals that keep their name
+    targets = list(mapping.values())
+    mapping = {c: r for c, r in mapping.items() if r not in outside and r not in keep and targets.count(r) == 1}
+    if not mapping:
         return False
     for n in _own_nodes(fn):
         if isinstance(n, ast.Name) and n.id in mapping:
@@ -967,6 +1090,50 @@ def _restore_names(fn, ref):
         elif isinstance(n, ast.ExceptHandler) and n.name in mapping:
             n.name = mapping[n.name]
     return True
+
+
+import re as _re
+_CONST_NAME = _re.compile(r'^_[A-Z][A-Z0-9_]*$')
+
+
+def _literal(v):
+    if isinstance(v, ast.Constant):
+        return v.value is not None and not isinstance(v.value, type(Ellipsis))
+    if isinstance(v, ast.Tuple):
+        return all(_literal(x) for x in v.elts)
+    if isinstance(v, ast.UnaryOp) and isinstance(v.op, ast.USub):
+        return _literal(v.operand)
+    if isinstance(v, ast.Call) and isinstance(v.func, ast.Name) and v.func.id == 'frozenset' and len(v.args) == 1 and not v.keywords:
+        return _literal(v.args[0]) or (isinstance(v.args[0], (ast.Set, ast.List)) and all(_literal(x) for x in v.args[0].elts))
+    return False
+
+
+def _propagate_module_constants(tree, known=()):
+    '''A private module-level constant (`_UPPER_CASE = <literal>`, bound once, never declared global) that the anchored tree did not have is the
+    literal it names: replacing a magic literal by such a constant is a pure respelling, so the literal is put back at every read inside functions
+    that do not bind the name themselves.'''
+    binds = {}
+    for n in ast.walk(tree):
+        if isinstance(n, ast.Name) and isinstance(n.ctx, (ast.Store, ast.Del)):
+            binds[n.id] = binds.get(n.id, 0) + 1
+        elif isinstance(n, (ast.Global, ast.Nonlocal)):
+            for x in n.names:
+                binds[x] = binds.get(x, 0) + 2
+    consts = {}
+    for s in tree.body:
+        if isinstance(s, ast.Assign) and len(s.targets) == 1 and isinstance(s.targets[0], ast.Name):
+            nm = s.targets[0].id
+            if _CONST_NAME.match(nm) and binds.get(nm) == 1 and nm not in known and _literal(s.value):
+                consts[nm] = s.value
+    if not consts:
+        return
+    for f in ast.walk(tree):
+        if isinstance(f, (ast.FunctionDef, ast.AsyncFunctionDef)):
+            counts, _ = _bindings(f)
+            usable = {k: v for k, v in consts.items() if k not in counts}
+            if usable and any(isinstance(n, ast.Name) and n.id in usable for n in ast.walk(f)):
+                sub = _Subst(usable)
+                f.body = [sub.visit(st) for st in f.body]
 
 
 def normalize(tree, form, source=None, filename='<unknown>', helpers=None, functions=None, module=None):
@@ -982,8 +1149,11 @@ def normalize(tree, form, source=None, filename='<unknown>', helpers=None, funct
     if 'rename' in flags:
         for q, node in targets:
             _rename_locals(node)
-    if 'names' in flags:
-        ref = reference_names().get(module or '', {})
+    wantnames = 'names' in flags
+    ref = reference_names().get(module or '', {}) if wantnames else {}
+    if flags - {'raw', 'rename', 'helpers'}:
+        _propagate_module_constants(new, known=set(reference_names().get('__module_constants__', {}).get(module or '', ())))
+    if wantnames:
         for q, node in targets:
             if q in ref:
                 _restore_names(node, ref[q])
@@ -991,5 +1161,9 @@ def normalize(tree, form, source=None, filename='<unknown>', helpers=None, funct
     if flags:
         for q, node in targets:
             _inline_function(node, flags)
+        if wantnames:   # once more: temporaries that were substituted away no longer shift the pairing
+            for q, node in targets:
+                if q in ref:
+                    _restore_names(node, ref[q])
     ast.fix_missing_locations(new)
     return new
